@@ -34,7 +34,6 @@ Fixpoint run_until (stop : hstate -> bool) (dflt fuel : nat) (h : hstate) : hsta
 
 (* ================= constructors ================= *)
 Definition ctor_K : list kitem := Eval cbv in h_k (run_until at_while 1 16 (ctor_start [])).
-Definition ctor_body : list pstmt := match ctor_K with KS (PWhile _ b) :: _ => b | _ => [] end.
 
 (* MakeFromSequence at the head of its loop over the initial values: s values added so far *)
 Definition ctor_L (req cap n : nat) (vs : list Z) (s : nat) : hstate :=
@@ -57,7 +56,6 @@ Lemma gen_ctor_reaches_loop dflt vs : 1 <= dflt ->
   run_local dflt (gen_mk dflt) n (ctor_start vs) = HLocal (ctor_L req (Nat.max dflt (length vs)) (length vs) vs 0).
 Proof.
   intros Hd. unfold ctor_start.
-  assert (T : forall n, n = 4 \/ n = 5 \/ n = 6 \/ n = 7 \/ n = 8 -> n <= 8) by (intros; lia).
   destruct (dflt <? length vs) eqn:E;
     [ exists 6, (length vs) | exists 5, dflt ]; (split; [lia|]);
     rewrite <- (max_cases dflt (length vs) Hd), E;
